@@ -547,6 +547,8 @@ fn read_code<C: CodeVisitor>(
 			// We may cast this to an u16, since we checked above that the length of the bytecode is less than 65536.
 			// Note that the value of u16::MAX = 65535 is not even possible as a value here.
 			let opcode_pos = r.position() as u16;
+			#[cfg(feature = "verif")]
+			crate::verif::emit(|| crate::verif::Event::InstructionStart { pass: 1, pos: opcode_pos });
 
 			(|| { // TODO: Make use of a try-block once it's stable
 				match r.read_u8()? {
@@ -858,6 +860,8 @@ fn read_code<C: CodeVisitor>(
 	while (r.position() as usize) < r.get_ref().len() {
 		// See the comment above for why we may do this.
 		let opcode_pos = r.position() as u16;
+		#[cfg(feature = "verif")]
+		crate::verif::emit(|| crate::verif::Event::InstructionStart { pass: 2, pos: opcode_pos });
 
 		// TODO: Make use of a try-block once it's stable
 		let instruction = (|| Ok(match r.read_u8()? {
